@@ -3,6 +3,7 @@ package lib
 import (
 	"bytes"
 	"fmt"
+	"os"
 
 	"verif/corpus"
 	"verif/sim"
@@ -199,8 +200,17 @@ var c10Entries = []int{EPlain, EBytes, EString, EReader, EWriter, EDirect}
 var CurrentSite string
 
 func c10Case(env *Env, tape *sim.Tape) *CaseOut {
-	if tape.Draw(16) == 0 {
+	d := tape.Draw(96)
+	if os.Getenv("VERIF_C10_MODE") == "scaling" {
+		d = 2 // enumeration of the sites of superlinear work (tools, not the registered check)
+	}
+	switch {
+	case d < 2 || d >= 92: // one case in 16 (91 is the enumerable scaling probe)
 		return c10TokenBuffer(env, tape)
+	case d < 3:
+		return c10Scaling(env, tape)
+	case d == 91:
+		return c10ScalingAt(env, tape)
 	}
 	out := &CaseOut{}
 	di := tape.Draw(len(env.Corpus))
@@ -364,6 +374,25 @@ func c10Case(env *Env, tape *sim.Tape) *CaseOut {
 }
 
 func c10Search(s *Search) {
+	// thorough tier: every unit of up to 4 bytes of every document of up to 64 bytes (the rows
+	// of the tree's test tables), repeated in place, plain and numbered: the scaling probe
+	// enumerated over a bounded family instead of sampled
+	if s.Env.Tier == "thorough" && os.Getenv("VERIF_RANDOM_ONLY") == "" && os.Getenv("VERIF_C10_MODE") == "" {
+		idx := uint64(1) << 40
+		for di, doc := range s.Env.Corpus {
+			if !s.Mine(di) || len(doc.Data) == 0 || len(doc.Data) > 64 {
+				continue
+			}
+			for a := 0; a < len(doc.Data) && s.More(); a++ {
+				for l := 1; l <= 4 && a+l <= len(doc.Data); l++ {
+					for numbered := uint64(0); numbered < 2; numbered++ {
+						idx++
+						s.Try(idx, sim.ReplayTape([]uint64{91, uint64(di), uint64(a), uint64(l - 1), numbered, 0}))
+					}
+				}
+			}
+		}
+	}
 	for i := s.Base(); s.More(); i++ {
 		if !s.Mine(int(i)) {
 			continue
